@@ -181,6 +181,7 @@ pub fn check_case(c: &Case) -> Verdict {
     v.class_if(short, "record<m");
     let ids: std::collections::HashSet<&String> = c.recs.iter().map(|r| &r.id).collect();
     v.class_if(ids.len() < c.recs.len(), "duplicate-id");
+    v.class_if(c.recs.iter().any(|r| r.seq.0.len() >= 10_000), "record>=10000-bases");
     io::set_stale(c.stale as usize);
     let o = exec(&io::path_str(&input), dir.path(), c.w, c.m, c.threads, &c.sched);
     io::set_stale(0);
@@ -213,6 +214,14 @@ impl Leg for Runs {
                         if which % 2 == 0 && (!cont.is_fastq() || !recs[i].seq.0.is_empty()) {
                             recs[i + 1].seq = recs[i].seq.clone();
                         }
+                    }
+                    // one record of 10 000 - 20 100 bases (a twelfth of the cases): coordinates with five digits, around
+                    // 10 000 and 20 000; for w = 0 its length itself is such a coordinate
+                    if which % 12 == 5 {
+                        let len = [10_000usize, 10_003, 10_009, 10_010, 20_000, 20_007, 12_345, 19_999][(which as usize / 12) % 8] + if w == 0 { 0 } else { (which as usize / 96) % 100 };
+                        let mut x = which as u64 | 1 << 20;
+                        let seq: Vec<u8> = (0..len).map(|_| { x = crate::util::splitmix(x); b"ACGT"[(x >> 33) as usize & 3] }).collect();
+                        recs.push(Rec { id: format!("long{}", which), desc: None, seq: crate::util::Bytes(seq) });
                     }
                     let threads = if matches!(sched, Sched::Controlled(_)) { ((threads - 1) % 6) + 1 } else { threads };
                     Case { recs, cont, m, w, threads, sched, stale }
